@@ -31,6 +31,8 @@ CONSTANTS Cfgs,              \* bounded input domain: set of task shapes
           DevNamedEnvLast,   \* the named environment is activated after the described exports
           DevStartupAbortsOthers,  \* the rank-0-only startup report ends the script on ranks > 0
           DevPalsByVersionLine,  \* a PALS mpiexec is taken for Open MPI (its version line wins)
+          DevGenericLast,    \* the generic rank variables are read after the flavor's own
+          DevSameFileDup,    \* one file for both streams: ") 2>&1 1> f" (stderr leaves with the old stdout)
           DevGpuWholeOnly,   \* the GPU variable is exported only for whole GPUs
           DevErrDirFromOut   \* whether stderr goes into the sandbox is decided by the stdout name
 
@@ -100,11 +102,13 @@ PostLaunch == LCmd("post_launch", cfg.postl, "postl", "exit")
 
 \* ( launcher exec-script ) 1> stdout-file 2> stderr-file: the shell opens both
 \* files first; a target it cannot open fails the launch (nothing runs, status 1)
+ErrIsAbs == IF cfg.err = "same" THEN cfg.out = "abs" ELSE cfg.err = "abs"
 ErrTarget ==
-  IF ~DevErrDirFromOut THEN FileOf(cfg.err, "err")
+  IF DevSameFileDup /\ cfg.err = "same" THEN [dir |-> "launcher-stdout", name |-> "none"]
+  ELSE IF ~DevErrDirFromOut THEN ErrFile(cfg)
   ELSE IF cfg.out = "abs"
-       THEN [dir |-> IF cfg.err = "abs" THEN "as-given" ELSE "cwd", name |-> FileOf(cfg.err, "err").name]
-       ELSE [dir |-> IF cfg.err = "abs" THEN "unusable" ELSE "sandbox", name |-> FileOf(cfg.err, "err").name]
+       THEN [dir |-> IF ErrIsAbs THEN "as-given" ELSE "cwd", name |-> ErrFile(cfg).name]
+       ELSE [dir |-> IF ErrIsAbs THEN "unusable" ELSE "sandbox", name |-> ErrFile(cfg).name]
 
 Launch ==                                 \* the launcher starts every rank
   /\ lpc = "launch"
@@ -146,7 +150,7 @@ RankId(r) ==
   /\ pc[r] = "rankid"
   /\ pc' = [pc EXCEPT ![r] = "startup"]
   /\ envs' = [envs EXCEPT ![r] = @ \cup {"rank"}]
-  /\ rid' = [rid EXCEPT ![r] = RankIdOf(cfg, r, Detected)]
+  /\ rid' = [rid EXCEPT ![r] = RankIdOf(cfg, r, ReadOrder(Detected, DevGenericLast))]
   /\ UNCHANGED <<cfg, F, xrc, idx, ran, execd, ret, code, envval, arrived, printed>>
   /\ UNCHANGED GVars /\ UNCHANGED LVars
 
@@ -350,7 +354,8 @@ InvStartup ==
   /\ (cfg.sto /\ execd[0]) => 0 \in reported
 
 \* every rank knows its rank id, whatever the launcher's flavor
-InvRankId == \A r \in Rk : execd[r] => rid[r] = r /\ rid[r] = RankIdOf(cfg, r, cfg.fl)
+InvRankId ==
+  \A r \in Rk : execd[r] => rid[r] = r /\ rid[r] = RankIdOf(cfg, r, ReadOrder(cfg.fl, FALSE))
 
 \* the executable sees exactly the GPUs of its rank's slot
 InvGpuEnv == \A r \in Rk : execd[r] => gpuenv[r] = GpuEnv(cfg, r)
@@ -359,7 +364,7 @@ InvGpuEnv == \A r \in Rk : execd[r] => gpuenv[r] = GpuEnv(cfg, r)
 InvOutFiles ==
   (\E r \in Rk : pc[r] # "idle") =>
     /\ outto = FileOf(cfg.out, "out")
-    /\ errto = FileOf(cfg.err, "err")
+    /\ errto = ErrFile(cfg)
 
 \* the step machine and the functional oracle of the monitor agree
 InvAgree ==
